@@ -174,7 +174,8 @@ func runE2E(r *Report, known []Finding, sp e2eSpec) {
 			hh = hh[:120]
 		}
 		r.Violate(fmt.Sprintf("%s of %q on %q [%s]: coregex=%.200s regexp=%.200s", d.api, d.p, hh, d.strat, d.got, d.want),
-			map[string]any{"pattern": d.p, "haystack_hex": hexOf(d.h), "api": d.api, "coregex": d.got, "regexp": d.want, "strategy": d.strat, "longest": sp.longest, "attrs": attrs}, false)
+			map[string]any{"pattern": d.p, "haystack_hex": hexOf(d.h), "api": d.api, "coregex": d.got, "regexp": d.want, "strategy": d.strat, "longest": sp.longest, "attrs": attrs,
+				"learn_signature": learnSignature(attrs)}, false)
 	}
 	if len(dis) == 0 || true {
 		r.Sample(map[string]any{"apis": func() []string {
@@ -212,4 +213,19 @@ func primaryFeature(a map[string]string) string {
 		return "emptyok"
 	}
 	return "plain"
+}
+
+// brokenStrategies: dispatch paths that disagree with regexp in many independent ways; their end-to-end findings are
+// recorded per strategy, the comparatively clean strategies per (strategy, primary feature).
+var brokenStrategies = map[string]bool{}
+
+// learnSignature is the signature under which a new end-to-end disagreement would be recorded as a finding.
+func learnSignature(a map[string]string) map[string]string {
+	if a["pf"] == "ill-formed-haystack" {
+		return map[string]string{"pf": "ill-formed-haystack"}
+	}
+	if brokenStrategies[a["strategy"]] {
+		return map[string]string{"strategy": a["strategy"]}
+	}
+	return map[string]string{"strategy": a["strategy"], "pf": a["pf"]}
 }
